@@ -249,6 +249,16 @@ def run_job(job, unit, workdir, log=print):
     os.makedirs(jd, exist_ok=True)
     try:
         ast = get_ast(workdir, unit['driver'], unit.get('defines', ()), unit.get('cflags', ()))
+        if job.get('mode') == 'static':
+            # supporting static fact read off the clang AST (not a CBMC obligation; reported separately in the evidence)
+            for (nm, ok, desc, loc) in job['static_fn'](ast):
+                res.obligations.append(dict(name='static.' + nm, status='SUCCESS' if ok else 'FAILURE', description=desc, file=loc[0], line=str(loc[1]), function=''))
+            if not res.obligations:
+                raise Undecided('vacuity guard: static fact produced no obligations')
+            res.status = 'fail' if any(o['status'] == 'FAILURE' for o in res.obligations) else 'pass'
+            res.cmds.append('static fact on the clang AST: ' + job.get('clause', ''))
+            res.seconds = time.time() - t_start
+            return res
         specs = {k: expand_spec(v) for k, v in job.get('specs', {}).items()}
         mode = job.get('mode', 'dfcc')
         text, lw = lowered_text(ast, job['roots'], specs, cuts=job.get('cuts', ()), simd_contracts=bool(job.get('simd_contracts')))
